@@ -1,0 +1,166 @@
+//! `mos verif-probe` commands for the unit test runner (verification hook, only compiled with `--cfg mos_verif`).
+//! `testrun`: enumerate the tests of an in-memory project, or run one test instruction by instruction and report
+//! the registered test elements, the machine state before every instruction, the result and the final RAM.
+use crate::test_runner::{enumerate_test_cases, ExecuteResult, TestRunner};
+use mos_core::codegen::{SymbolData, SymbolSnapshot, TestElement};
+use mos_core::parser::source::{InMemoryParsingSource, ParsingSource};
+use mos_core::parser::IdentifierPath;
+use serde_json::{json, Value};
+use std::path::Path;
+use std::sync::{Arc, Mutex};
+
+fn source_from(req: &Value) -> (Arc<Mutex<dyn ParsingSource>>, String) {
+    let mut src = InMemoryParsingSource::new();
+    if let Some(files) = req.get("files").and_then(|f| f.as_object()) {
+        for (k, v) in files {
+            src = src.add(k.as_str(), v.as_str().unwrap_or(""));
+        }
+    }
+    let entry = req
+        .get("entry")
+        .and_then(|e| e.as_str())
+        .unwrap_or("main.asm")
+        .to_string();
+    (src.into(), entry)
+}
+
+fn snapshot_json(s: &SymbolSnapshot) -> Value {
+    // the path of the snapshot's scope, found by walking up to the root
+    let mut scope = vec![];
+    let mut nx = s.current_scope_nx;
+    let mut scope_ok = true;
+    while let Some(parent) = s.symbols.parent(nx) {
+        match s
+            .symbols
+            .children(parent)
+            .into_iter()
+            .find(|(_, child)| *child == nx)
+        {
+            Some((id, _)) => scope.push(id.to_string()),
+            None => {
+                scope_ok = false;
+                break;
+            }
+        }
+        nx = parent;
+    }
+    scope.reverse();
+    let mut syms = vec![];
+    for (path, (_, sym)) in s.symbols.all() {
+        let val = match &sym.data {
+            SymbolData::Number(n) => json!(n),
+            SymbolData::String(s) => json!(format!("s:{}", s)),
+            SymbolData::Placeholder => json!("placeholder"),
+            SymbolData::MacroDefinition(_) => json!("macro"),
+        };
+        syms.push((path.to_string(), val));
+    }
+    syms.sort_by(|a, b| a.0.cmp(&b.0));
+    json!({
+        "pc": s.pc.as_u16(),
+        "scope": scope,
+        "scope_ok": scope_ok,
+        "symbols": syms.into_iter().map(|(p, v)| json!([p, v])).collect::<Vec<_>>(),
+    })
+}
+
+pub fn cmd_testrun(req: &Value) -> Value {
+    let (src, entry) = source_from(req);
+    let entry = Path::new(&entry).to_path_buf();
+    let test = match req.get("test").and_then(|t| t.as_str()) {
+        Some(t) => t.to_string(),
+        None => {
+            return match enumerate_test_cases(src, &entry) {
+                Ok(cases) => json!({"tests": cases.iter().map(|(loc, name)| json!({
+                    "name": name.to_string(), "line": loc.begin.line + 1, "column": loc.begin.column + 1,
+                    "file": loc.file.name().to_string()})).collect::<Vec<_>>()}),
+                Err(e) => json!({"error": e.to_string()}),
+            };
+        }
+    };
+    let max_steps = req
+        .get("max_steps")
+        .and_then(|n| n.as_u64())
+        .unwrap_or(100_000);
+    let mut runner = match TestRunner::new(src, &entry, &IdentifierPath::from(test.as_str())) {
+        Ok(r) => r,
+        Err(e) => return json!({"error": e.to_string()}),
+    };
+    let tree = runner.verif_tree();
+    let mut elements = vec![];
+    for e in runner.verif_test_elements() {
+        match e {
+            TestElement::Assertion(a) => {
+                let sl = tree.code_map.look_up_span(a.expr.span);
+                elements.push(json!({
+                    "kind": "assert",
+                    "exprs": [format!("{}", &a.expr.data)],
+                    "message": a.failure_message,
+                    "file": sl.file.name().to_string(),
+                    "line": sl.begin.line + 1,
+                    "column": sl.begin.column + 1,
+                    "snapshot": snapshot_json(&a.snapshot),
+                }));
+            }
+            TestElement::Trace(t) => {
+                elements.push(json!({
+                    "kind": "trace",
+                    "exprs": t.exprs.iter().map(|e| format!("{}", &e.data)).collect::<Vec<_>>(),
+                    "snapshot": snapshot_json(&t.snapshot),
+                }));
+            }
+        }
+    }
+    let ram0 = runner.verif_ram();
+    let mut steps = vec![];
+    let mut result = json!({"kind": "step_limit"});
+    for _ in 0..max_steps {
+        {
+            let cpu = runner.cpu();
+            steps.push(json!([
+                cpu.get_program_counter(),
+                cpu.get_accumulator(),
+                cpu.get_x_register(),
+                cpu.get_y_register(),
+                cpu.get_stack_pointer(),
+                cpu.get_status_register()
+            ]));
+        }
+        match runner.execute_instruction() {
+            Ok(ExecuteResult::Running) => {}
+            Ok(ExecuteResult::TestSuccess(cycles)) => {
+                result = json!({"kind": "ok", "cycles": cycles});
+                break;
+            }
+            Ok(ExecuteResult::TestFailed(cycles, failure)) => {
+                result = json!({
+                    "kind": "failed",
+                    "cycles": cycles,
+                    "diagnostic": failure.diagnostic.to_string(),
+                    "traces": failure.traces.iter().map(|t| t.to_string()).collect::<Vec<_>>(),
+                });
+                break;
+            }
+            Err(e) => {
+                result = json!({"kind": "error", "error": e.to_string()});
+                break;
+            }
+        }
+    }
+    let ram1 = runner.verif_ram();
+    let nonzero = |ram: &Vec<u8>| {
+        ram.iter()
+            .enumerate()
+            .filter(|(_, b)| **b != 0)
+            .map(|(a, b)| json!([a, b]))
+            .collect::<Vec<_>>()
+    };
+    json!({
+        "elements": elements,
+        "ram0": nonzero(&ram0),
+        "steps": steps,
+        "result": result,
+        "ram1": nonzero(&ram1),
+        "traces": runner.verif_formatted_traces(),
+    })
+}
